@@ -22,25 +22,25 @@ namespace DaeVerif.C19
 
 /-! ## 1. Table lookups and the layout comparison -/
 
-def findRec (n : String) : List Rec → Option Rec
+def findRec (n : Name) : List Rec → Option Rec
   | [] => none
   | r :: rs => if r.name = n then some r else findRec n rs
 
-def findLeaf (p : String) : List Leaf → Option Leaf
+def findLeaf (p : Name) : List Leaf → Option Leaf
   | [] => none
   | l :: ls => if l.path = p then some l else findLeaf p ls
 
-def lookupConst (n : String) : List (String × Int) → Option Int
+def lookupConst (n : Name) : List (Name × Int) → Option Int
   | [] => none
   | (k, v) :: rest => if k = n then some v else lookupConst n rest
 
-def findMap (n : String) : List CMap → Option CMap
+def findMap (n : Name) : List CMap → Option CMap
   | [] => none
   | m :: ms => if m.name = n then some m else findMap n ms
 
 /-- Go memory layouts for one GOARCH (`"packed"` = encoding/binary layout). -/
-def goRecsFor (arch : String) : List Rec :=
-  if arch = "packed" then Gen.goPacked
+def goRecsFor (arch : Name) : List Rec :=
+  if arch = n!"packed" then Gen.goPacked
   else match Gen.goLayouts.find? (fun c => c.1.contains arch) with
     | some c => c.2
     | none => []
@@ -66,16 +66,16 @@ def Leaf.covers (l : Leaf) (b : Nat) : Bool := l.off ≤ b && b < l.off + l.byte
 /-- One hand-written correspondence between a C record and a Go struct type. -/
 structure Pairing where
   /-- C record name (`struct`/`union` tag). -/
-  c : String
+  c : Name
   /-- Go type as named by the translator: `stub.<T>` (bpf_stub.go), `real.<T>` (bpf_utils.go),
   `real.PARAM` (the anonymous load-time literal). -/
-  go : String
+  go : Name
   /-- (Go leaf path, C leaf path) -/
-  fields : List (String × String)
+  fields : List (Name × Name)
   /-- C leaves that are not mirrored one-to-one: other views of a union whose bytes are mirrored by
   paired leaves, and explicit C padding members mirrored by a Go `_` field. Every byte of such a
   leaf must be covered by a paired C leaf or by a blank Go leaf. -/
-  cAlt : List String
+  cAlt : List Name
   /-- the Go value itself is marshalled by cilium/ebpf (`sysenc.Marshal` = encoding/binary layout),
   so the packed layout must agree with C as well. -/
   wire : Bool
@@ -87,20 +87,20 @@ deriving Repr
 concrete disagreement; the theorems are about `pairOk`. -/
 def pairProblems (cs gs : List Rec) (p : Pairing) : List String :=
   match findRec p.c cs, findRec p.go gs with
-  | none, _ => [s!"C record {p.c} not found"]
-  | _, none => [s!"Go type {p.go} not found"]
+  | none, _ => [s!"C record {nameStr p.c} not found"]
+  | _, none => [s!"Go type {nameStr p.go} not found"]
   | some c, some g =>
-    (if c.size == g.size then [] else [s!"size: C {p.c}={c.size} Go {p.go}={g.size}"])
+    (if c.size == g.size then [] else [s!"size: C {nameStr p.c}={c.size} Go {nameStr p.go}={g.size}"])
     ++ p.fields.flatMap (fun (gp, cp) =>
         match findLeaf gp g.leaves, findLeaf cp c.leaves with
         | some gl, some cl =>
-          if gl.blank then [s!"Go field {gp} is blank"]
+          if gl.blank then [s!"Go field {nameStr gp} is blank"]
           else if leafAgree gl cl then []
-          else [s!"field {gp}~{cp}: Go off={gl.off} esize={gl.esize} count={gl.count} cls={repr gl.cls} | C off={cl.off} esize={cl.esize} count={cl.count} cls={repr cl.cls}"]
-        | none, _ => [s!"Go field {p.go}.{gp} not found"]
-        | _, none => [s!"C member {p.c}.{cp} not found"])
+          else [s!"field {nameStr gp}~{nameStr cp}: Go off={gl.off} esize={gl.esize} count={gl.count} cls={repr gl.cls} | C off={cl.off} esize={cl.esize} count={cl.count} cls={repr cl.cls}"]
+        | none, _ => [s!"Go field {nameStr p.go}.{nameStr gp} not found"]
+        | _, none => [s!"C member {nameStr p.c}.{nameStr cp} not found"])
     ++ g.leaves.flatMap (fun gl =>
-        if gl.blank || p.fields.any (fun f => f.1 == gl.path) then [] else [s!"Go field {p.go}.{gl.path} has no C counterpart"])
+        if gl.blank || p.fields.any (fun f => f.1 == gl.path) then [] else [s!"Go field {nameStr p.go}.{nameStr gl.path} has no C counterpart"])
     ++ c.leaves.flatMap (fun cl =>
         if p.fields.any (fun f => f.2 == cl.path) then []
         else if p.cAlt.contains cl.path then
@@ -108,8 +108,8 @@ def pairProblems (cs gs : List Rec) (p : Pairing) : List String :=
           let blanks := g.leaves.filter (·.blank)
           if (List.range cl.bytes).all (fun i =>
               pairedC.any (·.covers (cl.off + i)) || blanks.any (·.covers (cl.off + i))) then []
-          else [s!"C member {p.c}.{cl.path} (alternate view/padding) is not covered by mirrored fields"]
-        else [s!"C member {p.c}.{cl.path} has no Go counterpart"])
+          else [s!"C member {nameStr p.c}.{nameStr cl.path} (alternate view/padding) is not covered by mirrored fields"]
+        else [s!"C member {nameStr p.c}.{nameStr cl.path} has no Go counterpart"])
 
 /-- The layout agreement predicate for one pairing under given C and Go tables:
 sizes equal; every paired field agrees in offset/width/count/class and is not blank; every
@@ -134,131 +134,131 @@ def pairOk (cs gs : List Rec) (p : Pairing) : Bool :=
 
 /-! ## 2. The pairing (hand-written) -/
 
-def ip6Alt (pfx : String) : List String :=
-  [pfx ++ ".u6_addr16", pfx ++ ".u6_addr32", pfx ++ ".u6_addr64"]
+def ip6Alt (pfx : Name) : List Name :=
+  [pfx ++ n!".u6_addr16", pfx ++ n!".u6_addr32", pfx ++ n!".u6_addr64"]
 
-def routingResultFields : List (String × String) :=
-  [("Mark", "mark"), ("Must", "must"), ("Mac", "mac"), ("Outbound", "outbound"),
-   ("Pname", "pname"), ("Pid", "pid"), ("Dscp", "dscp")]
+def routingResultFields : List (Name × Name) :=
+  [(n!"Mark", n!"mark"), (n!"Must", n!"must"), (n!"Mac", n!"mac"), (n!"Outbound", n!"outbound"),
+   (n!"Pname", n!"pname"), (n!"Pid", n!"pid"), (n!"Dscp", n!"dscp")]
 
-def daeParamFieldsC : List String :=
-  ["tproxy_port", "control_plane_pid", "dae0_ifindex", "dae_netns_id", "dae0peer_mac",
-   "padding_after_mac", "use_redirect_peer", "has_bpf_get_current_task", "padding2", "dae_socket_mark"]
+def daeParamFieldsC : List Name :=
+  [n!"tproxy_port", n!"control_plane_pid", n!"dae0_ifindex", n!"dae_netns_id", n!"dae0peer_mac",
+   n!"padding_after_mac", n!"use_redirect_peer", n!"has_bpf_get_current_task", n!"padding2", n!"dae_socket_mark"]
 
 def pairing : List Pairing := [
-  { c := "tuples_key", go := "stub.bpfTuplesKey", wire := true,
-    fields := [("Sip.U6Addr8", "sip.u6_addr8"), ("Dip.U6Addr8", "dip.u6_addr8"), ("Sport", "sport"),
-               ("Dport", "dport"), ("L4proto", "l4proto")],
-    cAlt := ip6Alt "sip" ++ ip6Alt "dip" },
-  { c := "redirect_tuple", go := "stub.bpfRedirectTuple", wire := true,
-    fields := [("Sip.U6Addr8", "sip.u6_addr8"), ("Dip.U6Addr8", "dip.u6_addr8")],
-    cAlt := ip6Alt "sip" ++ ip6Alt "dip" },
-  { c := "redirect_entry", go := "stub.bpfRedirectEntry", wire := false,
-    fields := [("Ifindex", "ifindex"), ("Smac", "smac"), ("Dmac", "dmac"), ("FromWan", "from_wan"),
-               ("Padding", "padding"), ("LastSeenNs", "last_seen_ns")],
+  { c := n!"tuples_key", go := n!"stub.bpfTuplesKey", wire := true,
+    fields := [(n!"Sip.U6Addr8", n!"sip.u6_addr8"), (n!"Dip.U6Addr8", n!"dip.u6_addr8"), (n!"Sport", n!"sport"),
+               (n!"Dport", n!"dport"), (n!"L4proto", n!"l4proto")],
+    cAlt := ip6Alt n!"sip" ++ ip6Alt n!"dip" },
+  { c := n!"redirect_tuple", go := n!"stub.bpfRedirectTuple", wire := true,
+    fields := [(n!"Sip.U6Addr8", n!"sip.u6_addr8"), (n!"Dip.U6Addr8", n!"dip.u6_addr8")],
+    cAlt := ip6Alt n!"sip" ++ ip6Alt n!"dip" },
+  { c := n!"redirect_entry", go := n!"stub.bpfRedirectEntry", wire := false,
+    fields := [(n!"Ifindex", n!"ifindex"), (n!"Smac", n!"smac"), (n!"Dmac", n!"dmac"), (n!"FromWan", n!"from_wan"),
+               (n!"Padding", n!"padding"), (n!"LastSeenNs", n!"last_seen_ns")],
     cAlt := [] },
-  { c := "routing_result", go := "stub.bpfRoutingResult", wire := false,
+  { c := n!"routing_result", go := n!"stub.bpfRoutingResult", wire := false,
     fields := routingResultFields, cAlt := [] },
-  { c := "routing_result", go := "real.bpfRoutingResult", wire := false, real := true,
+  { c := n!"routing_result", go := n!"real.bpfRoutingResult", wire := false, real := true,
     fields := routingResultFields, cAlt := [] },
-  { c := "routing_handoff_entry", go := "stub.bpfRoutingHandoffEntry", wire := false,
-    fields := ("LastSeenNs", "last_seen_ns") :: routingResultFields.map (fun f => ("Result." ++ f.1, "result." ++ f.2)),
+  { c := n!"routing_handoff_entry", go := n!"stub.bpfRoutingHandoffEntry", wire := false,
+    fields := (n!"LastSeenNs", n!"last_seen_ns") :: routingResultFields.map (fun f => (n!"Result." ++ f.1, n!"result." ++ f.2)),
     cAlt := [] },
-  { c := "dae_param", go := "stub.bpfDaeParam", wire := true,
-    fields := [("TproxyPort", "tproxy_port"), ("ControlPlanePid", "control_plane_pid"),
-               ("Dae0Ifindex", "dae0_ifindex"), ("DaeNetnsId", "dae_netns_id"), ("Dae0peerMac", "dae0peer_mac"),
-               ("PaddingAfterMac", "padding_after_mac"), ("UseRedirectPeer", "use_redirect_peer"),
-               ("HasBpfGetCurrentTask", "has_bpf_get_current_task"), ("Padding2", "padding2"),
-               ("DaeSocketMark", "dae_socket_mark")],
+  { c := n!"dae_param", go := n!"stub.bpfDaeParam", wire := true,
+    fields := [(n!"TproxyPort", n!"tproxy_port"), (n!"ControlPlanePid", n!"control_plane_pid"),
+               (n!"Dae0Ifindex", n!"dae0_ifindex"), (n!"DaeNetnsId", n!"dae_netns_id"), (n!"Dae0peerMac", n!"dae0peer_mac"),
+               (n!"PaddingAfterMac", n!"padding_after_mac"), (n!"UseRedirectPeer", n!"use_redirect_peer"),
+               (n!"HasBpfGetCurrentTask", n!"has_bpf_get_current_task"), (n!"Padding2", n!"padding2"),
+               (n!"DaeSocketMark", n!"dae_socket_mark")],
     cAlt := [] },
-  { c := "dae_param", go := "real.PARAM", wire := true, real := true,
-    fields := [("tproxyPort", "tproxy_port"), ("controlPlanePid", "control_plane_pid"),
-               ("dae0Ifindex", "dae0_ifindex"), ("daeNetnsId", "dae_netns_id"), ("dae0peerMac", "dae0peer_mac"),
-               ("paddingAfterMac", "padding_after_mac"), ("useRedirectPeer", "use_redirect_peer"),
-               ("hasBpfGetCurrentTask", "has_bpf_get_current_task"), ("padding2", "padding2"),
-               ("daeSocketMark", "dae_socket_mark")],
+  { c := n!"dae_param", go := n!"real.PARAM", wire := true, real := true,
+    fields := [(n!"tproxyPort", n!"tproxy_port"), (n!"controlPlanePid", n!"control_plane_pid"),
+               (n!"dae0Ifindex", n!"dae0_ifindex"), (n!"daeNetnsId", n!"dae_netns_id"), (n!"dae0peerMac", n!"dae0peer_mac"),
+               (n!"paddingAfterMac", n!"padding_after_mac"), (n!"useRedirectPeer", n!"use_redirect_peer"),
+               (n!"hasBpfGetCurrentTask", n!"has_bpf_get_current_task"), (n!"padding2", n!"padding2"),
+               (n!"daeSocketMark", n!"dae_socket_mark")],
     cAlt := [] },
-  { c := "lpm_key", go := "stub._bpfLpmKey", wire := true,
-    fields := [("PrefixLen", "prefixlen"), ("Data", "data")], cAlt := [] },
-  { c := "lpm_key", go := "real._bpfLpmKey", wire := true, real := true,
-    fields := [("PrefixLen", "prefixlen"), ("Data", "data")], cAlt := [] },
-  { c := "port_range", go := "stub.bpfPortRange", wire := true,
-    fields := [("PortStart", "port_start"), ("PortEnd", "port_end")], cAlt := [] },
-  { c := "match_set", go := "stub.bpfMatchSet", wire := true,
-    fields := [("Value", "__value"), ("Not", "not"), ("Type", "type"), ("Outbound", "outbound"),
-               ("Must", "must"), ("Mark", "mark")],
-    cAlt := ["index", "port_range.port_start", "port_range.port_end", "l4proto_type", "ip_version",
-             "pname", "dscp"] },
-  { c := "domain_routing", go := "stub.bpfDomainRouting", wire := true,
-    fields := [("Bitmap", "bitmap")], cAlt := [] },
-  { c := "pid_pname", go := "stub.bpfPidPname", wire := false,
-    fields := [("LastSeenNs", "last_seen_ns"), ("Pid", "pid"), ("Pname", "pname")], cAlt := [] },
-  { c := "conn_state", go := "stub.bpfConnState", wire := false,
-    fields := [("IsWanIngressDirection", "is_wan_ingress_direction"), ("State", "state"),
-               ("LastSeenNs", "last_seen_ns"), ("Meta.Data.Mark", "meta.data.mark"),
-               ("Meta.Data.Outbound", "meta.data.outbound"), ("Meta.Data.Must", "meta.data.must"),
-               ("Meta.Data.Dscp", "meta.data.dscp"), ("Meta.Data.HasRouting", "meta.data.has_routing"),
-               ("Mac", "mac"), ("Pname", "pname"), ("Pid", "pid")],
-    cAlt := ["meta.raw", "padding"] },
-  { c := "dae_event", go := "stub.bpfDaeEvent", wire := true,
-    fields := [("Timestamp", "timestamp"), ("Type", "type"), ("Pid", "pid"), ("Pname", "pname"),
-               ("Outbound", "outbound"), ("L4proto", "l4proto"), ("Pad", "pad"), ("Sip", "sip"),
-               ("Dip", "dip"), ("Sport", "sport"), ("Dport", "dport")],
+  { c := n!"lpm_key", go := n!"stub._bpfLpmKey", wire := true,
+    fields := [(n!"PrefixLen", n!"prefixlen"), (n!"Data", n!"data")], cAlt := [] },
+  { c := n!"lpm_key", go := n!"real._bpfLpmKey", wire := true, real := true,
+    fields := [(n!"PrefixLen", n!"prefixlen"), (n!"Data", n!"data")], cAlt := [] },
+  { c := n!"port_range", go := n!"stub.bpfPortRange", wire := true,
+    fields := [(n!"PortStart", n!"port_start"), (n!"PortEnd", n!"port_end")], cAlt := [] },
+  { c := n!"match_set", go := n!"stub.bpfMatchSet", wire := true,
+    fields := [(n!"Value", n!"__value"), (n!"Not", n!"not"), (n!"Type", n!"type"), (n!"Outbound", n!"outbound"),
+               (n!"Must", n!"must"), (n!"Mark", n!"mark")],
+    cAlt := [n!"index", n!"port_range.port_start", n!"port_range.port_end", n!"l4proto_type", n!"ip_version",
+             n!"pname", n!"dscp"] },
+  { c := n!"domain_routing", go := n!"stub.bpfDomainRouting", wire := true,
+    fields := [(n!"Bitmap", n!"bitmap")], cAlt := [] },
+  { c := n!"pid_pname", go := n!"stub.bpfPidPname", wire := false,
+    fields := [(n!"LastSeenNs", n!"last_seen_ns"), (n!"Pid", n!"pid"), (n!"Pname", n!"pname")], cAlt := [] },
+  { c := n!"conn_state", go := n!"stub.bpfConnState", wire := false,
+    fields := [(n!"IsWanIngressDirection", n!"is_wan_ingress_direction"), (n!"State", n!"state"),
+               (n!"LastSeenNs", n!"last_seen_ns"), (n!"Meta.Data.Mark", n!"meta.data.mark"),
+               (n!"Meta.Data.Outbound", n!"meta.data.outbound"), (n!"Meta.Data.Must", n!"meta.data.must"),
+               (n!"Meta.Data.Dscp", n!"meta.data.dscp"), (n!"Meta.Data.HasRouting", n!"meta.data.has_routing"),
+               (n!"Mac", n!"mac"), (n!"Pname", n!"pname"), (n!"Pid", n!"pid")],
+    cAlt := [n!"meta.raw", n!"padding"] },
+  { c := n!"dae_event", go := n!"stub.bpfDaeEvent", wire := true,
+    fields := [(n!"Timestamp", n!"timestamp"), (n!"Type", n!"type"), (n!"Pid", n!"pid"), (n!"Pname", n!"pname"),
+               (n!"Outbound", n!"outbound"), (n!"L4proto", n!"l4proto"), (n!"Pad", n!"pad"), (n!"Sip", n!"sip"),
+               (n!"Dip", n!"dip"), (n!"Sport", n!"sport"), (n!"Dport", n!"dport")],
     cAlt := [] }
 ]
 
 /-- Go data struct types `bpf*` that do not mirror a C record (interface feature flags). A new
 `bpf*` plain-data type must be added to `pairing` or here. -/
-def goOnlyTypes : List String := ["stub.bpfIfParams", "real.bpfIfParams"]
+def goOnlyTypes : List Name := [n!"stub.bpfIfParams", n!"real.bpfIfParams"]
 
 /-- GOARCHes of dae's release matrix with 8-byte aligned `uint64` (the stub types, which stand in for the bpf2go
 output, are memory mirrors of the BPF ABI on these). -/
-def arches64 : List String :=
-  ["amd64", "arm64", "riscv64", "loong64", "mips64", "mips64le", "ppc64", "ppc64le", "s390x"]
+def arches64 : List Name :=
+  [n!"amd64", n!"arm64", n!"riscv64", n!"loong64", n!"mips64", n!"mips64le", n!"ppc64", n!"ppc64le", n!"s390x"]
 
 /-- All GOARCHes of the release matrix (`.github/workflows/prerelease.yml` + amd64 + arm). -/
-def archesAll : List String := arches64 ++ ["386", "arm", "mipsle", "mips"]
+def archesAll : List Name := arches64 ++ [n!"386", n!"arm", n!"mipsle", n!"mips"]
 
 /-- The arches on which a pairing is required to hold: hand-written real-build types everywhere,
 stub types on the 64-bit ones. -/
-def Pairing.arches (p : Pairing) : List String := if p.real then archesAll else arches64
+def Pairing.arches (p : Pairing) : List Name := if p.real then archesAll else arches64
 
-/-- Every layout obligation: (pairing, arch) with `"packed"` for wire types that have no implicit
+/-- Every layout obligation: (pairing, arch) with `n!"packed"` for wire types that have no implicit
 padding on the Go side.  `wire` stub types with implicit Go padding cannot exist: the packed check is
 required of every `wire` pairing. -/
-def layoutObligations : List (Pairing × String) :=
-  pairing.flatMap (fun p => (p.arches.map (fun a => (p, a))) ++ (if p.wire then [(p, "packed")] else []))
+def layoutObligations : List (Pairing × Name) :=
+  pairing.flatMap (fun p => (p.arches.map (fun a => (p, a))) ++ (if p.wire then [(p, n!"packed")] else []))
 
 /-! ### Maps -/
 
 /-- Maps whose Go handle exists (`bpfMaps`) but whose contents the control plane never reads or
 writes: per-CPU scratch space of the kernel program. -/
-def handleOnlyMaps : List String := ["pkt_scratch_map"]
+def handleOnlyMaps : List Name := [n!"pkt_scratch_map"]
 
-def isPairedC (n : String) : Bool := pairing.any (fun p => p.c == n)
+def isPairedC (n : Name) : Bool := pairing.any (fun p => p.c == n)
 
 /-- A shared map's record key/value types are mirrored, and the Go-declared handle exists in C. -/
 def mapOk (m : CMap) : Bool :=
   !Gen.goMapTags.contains m.name || handleOnlyMaps.contains m.name ||
-    ((m.keyRec == "" || isPairedC m.keyRec) && (m.valRec == "" || isPairedC m.valRec))
+    ((m.keyRec == [] || isPairedC m.keyRec) && (m.valRec == [] || isPairedC m.valRec))
 
 /-- Key/value widths the control plane uses for maps with scalar (or non-struct) keys/values:
 (map, key bytes, value bytes; 0 = not used / not applicable). Hand-written from the Go call sites
 (`Update(uint32, uint32)` for connectivity, `Update(ParamKey, uint64)` for listen sockets,
 `[4]uint32` domain keys, `_bpfLpmKey` LPM keys with `uint32` values, `uint32` LPM array index). -/
-def goScalarIO : List (String × Nat × Nat) := [
-  ("outbound_connectivity_map", 4, 4),
-  ("listen_socket_map", 4, 8),
-  ("routing_map", 4, 0),
-  ("routing_meta_map", 4, 4),
-  ("bpf_stats_map", 4, 8),
-  ("cookie_pid_map", 8, 0),
-  ("domain_routing_map", 16, 0),
-  ("unused_lpm_type", 20, 4),
-  ("lpm_array_map", 4, 0),
-  ("fast_sock", 0, 8)]
+def goScalarIO : List (Name × Nat × Nat) := [
+  (n!"outbound_connectivity_map", 4, 4),
+  (n!"listen_socket_map", 4, 8),
+  (n!"routing_map", 4, 0),
+  (n!"routing_meta_map", 4, 4),
+  (n!"bpf_stats_map", 4, 8),
+  (n!"cookie_pid_map", 8, 0),
+  (n!"domain_routing_map", 16, 0),
+  (n!"unused_lpm_type", 20, 4),
+  (n!"lpm_array_map", 4, 0),
+  (n!"fast_sock", 0, 8)]
 
-def scalarIOOk (x : String × Nat × Nat) : Bool :=
+def scalarIOOk (x : Name × Nat × Nat) : Bool :=
   match findMap x.1 Gen.cMaps with
   | some m => (x.2.1 == 0 || m.keySize == x.2.1) && (x.2.2 == 0 || m.valSize == x.2.2)
   | none => false
@@ -269,122 +269,132 @@ def scalarIOOk (x : String × Nat × Nat) : Bool :=
 `common/consts/ebpf_generated.go` and `control/kern/ebpf_sync_defs.h`, group by group, for ANY
 spec. -/
 structure GenOut where
-  matchTypes : List (String × Nat)
-  outbound : List (String × Nat)
-  l4 : List (String × Nat)
-  ip : List (String × Nat)
+  matchTypes : List (Name × Nat)
+  outbound : List (Name × Nat)
+  l4 : List (Name × Nat)
+  ip : List (Name × Nat)
 deriving Repr, DecidableEq
 
-def upperFirst (s : String) : String :=
-  match s.toList with
-  | [] => ""
-  | c :: cs => String.ofList (c.toUpper :: cs)
+/-- ASCII lower/upper case of one byte (spec names are C identifiers) -/
+def lowerByte (b : Nat) : Nat := if 65 ≤ b ∧ b ≤ 90 then b + 32 else b
+def upperByte (b : Nat) : Nat := if 97 ≤ b ∧ b ≤ 122 then b - 32 else b
 
-/-- `toCamel(strings.ToLower(name))`: split on `_`, drop empty parts, capitalise each. -/
-def toCamelLower (s : String) : String :=
-  String.join (((s.toLower.splitOn "_").filter (· ≠ "")).map upperFirst)
+/-- split a name on `_` (95), dropping empty parts -/
+def splitUnderscore : Name → Name → List Name
+  | [], cur => if cur = [] then [] else [cur.reverse]
+  | b :: bs, cur =>
+    if b = 95 then (if cur = [] then splitUnderscore bs [] else cur.reverse :: splitUnderscore bs [])
+    else splitUnderscore bs (b :: cur)
 
-def goOutboundName (c : String) : String :=
-  if c = "DIRECT" then "OutboundDirect"
-  else if c = "BLOCK" then "OutboundBlock"
-  else if c = "MUST_RULES" then "OutboundMustRules"
-  else if c = "CONTROL_PLANE_ROUTING" then "OutboundControlPlaneRouting"
-  else if c = "LOGICAL_OR" then "OutboundLogicalOr"
-  else if c = "LOGICAL_AND" then "OutboundLogicalAnd"
-  else if c = "LOGICAL_MASK" then "OutboundLogicalMask"
-  else "Outbound" ++ toCamelLower c
+def upperFirst : Name → Name
+  | [] => []
+  | c :: cs => upperByte c :: cs
+
+/-- `toCamel(strings.ToLower(name))`: split on `_`, drop empty parts, capitalise each (ASCII). -/
+def toCamelLower (s : Name) : Name :=
+  ((splitUnderscore (s.map lowerByte) []).map upperFirst).flatten
+
+def goOutboundName (c : Name) : Name :=
+  if c = n!"DIRECT" then n!"OutboundDirect"
+  else if c = n!"BLOCK" then n!"OutboundBlock"
+  else if c = n!"MUST_RULES" then n!"OutboundMustRules"
+  else if c = n!"CONTROL_PLANE_ROUTING" then n!"OutboundControlPlaneRouting"
+  else if c = n!"LOGICAL_OR" then n!"OutboundLogicalOr"
+  else if c = n!"LOGICAL_AND" then n!"OutboundLogicalAnd"
+  else if c = n!"LOGICAL_MASK" then n!"OutboundLogicalMask"
+  else n!"Outbound" ++ toCamelLower c
 
 /-- enumerate from `i` (the Go side uses `iota`, the C side prints the loop index). -/
-def enumFrom (i : Nat) : List String → List (String × Nat)
+def enumFrom (i : Nat) : List Name → List (Name × Nat)
   | [] => []
   | x :: xs => (x, i) :: enumFrom (i + 1) xs
 
 def genGo (s : Spec) : GenOut :=
-  { matchTypes := (enumFrom 0 s.matchTypes).map (fun x => ("MatchType_" ++ x.1, x.2)),
+  { matchTypes := (enumFrom 0 s.matchTypes).map (fun x => (n!"MatchType_" ++ x.1, x.2)),
     outbound := s.outbound.map (fun x => (goOutboundName x.1, x.2)),
-    l4 := s.l4.map (fun x => ("L4ProtoType_" ++ x.1, x.2)),
-    ip := s.ip.map (fun x => ("IpVersion_" ++ x.1, x.2)) }
+    l4 := s.l4.map (fun x => (n!"L4ProtoType_" ++ x.1, x.2)),
+    ip := s.ip.map (fun x => (n!"IpVersion_" ++ x.1, x.2)) }
 
 def genC (s : Spec) : GenOut :=
-  { matchTypes := (enumFrom 0 s.matchTypes).map (fun x => ("MatchType_" ++ x.1, x.2)),
-    outbound := s.outbound.map (fun x => ("OUTBOUND_" ++ x.1, x.2)),
-    l4 := s.l4.map (fun x => ("L4ProtoType_" ++ x.1, x.2)),
-    ip := s.ip.map (fun x => ("IpVersionType_" ++ x.1, x.2)) }
+  { matchTypes := (enumFrom 0 s.matchTypes).map (fun x => (n!"MatchType_" ++ x.1, x.2)),
+    outbound := s.outbound.map (fun x => (n!"OUTBOUND_" ++ x.1, x.2)),
+    l4 := s.l4.map (fun x => (n!"L4ProtoType_" ++ x.1, x.2)),
+    ip := s.ip.map (fun x => (n!"IpVersionType_" ++ x.1, x.2)) }
 
-def GenOut.all (g : GenOut) : List (String × Nat) := g.matchTypes ++ g.outbound ++ g.l4 ++ g.ip
+def GenOut.all (g : GenOut) : List (Name × Nat) := g.matchTypes ++ g.outbound ++ g.l4 ++ g.ip
 
 /-- the generated Go file as checked in carries exactly the generator's values -/
 def goFileMatchesSpec : Bool :=
-  (genGo Gen.specData).all.all (fun x => lookupConst ("consts." ++ x.1) Gen.goConsts == some (x.2 : Int))
+  (genGo Gen.specData).all.all (fun x => lookupConst (n!"consts." ++ x.1) Gen.goConsts == some (x.2 : Int))
 
 def cFileMatchesSpec : Bool :=
   (genC Gen.specData).all.all (fun x => lookupConst x.1 Gen.cConsts == some (x.2 : Int))
 
 /-- pairs (Go constant, C constant) that the generator emits for the current spec -/
-def specConstPairs : List (String × String) :=
-  ((genGo Gen.specData).all.zip (genC Gen.specData).all).map (fun x => ("consts." ++ x.1.1, x.2.1))
+def specConstPairs : List (Name × Name) :=
+  ((genGo Gen.specData).all.zip (genC Gen.specData).all).map (fun x => (n!"consts." ++ x.1.1, x.2.1))
 
 /-- hand-written pairs of constants that denote the same quantity -/
-def fixedConstPairs : List (String × String) := [
-  ("consts.TaskCommLen", "TASK_COMM_LEN"),
-  ("consts.MaxMatchSetLen", "MAX_MATCH_SET_LEN"),
-  ("consts.TproxyMark", "TPROXY_MARK"),
-  ("consts.ZeroKey", "zero_key"),
-  ("consts.OneKey", "one_key"),
-  ("consts.TwoKey", "two_key"),
-  ("consts.IPPROTO_TCP", "IPPROTO_TCP"),
-  ("consts.IPPROTO_UDP", "IPPROTO_UDP"),
-  ("consts.LinkHdrLen_Ethernet", "ETH_HLEN"),
-  ("consts.L4ProtoType_TCP_UDP", "L4ProtoType_X"),
-  ("control.defaultConnStateMapMaxEntries", "MAX_CONN_STATE_NUM")]
+def fixedConstPairs : List (Name × Name) := [
+  (n!"consts.TaskCommLen", n!"TASK_COMM_LEN"),
+  (n!"consts.MaxMatchSetLen", n!"MAX_MATCH_SET_LEN"),
+  (n!"consts.TproxyMark", n!"TPROXY_MARK"),
+  (n!"consts.ZeroKey", n!"zero_key"),
+  (n!"consts.OneKey", n!"one_key"),
+  (n!"consts.TwoKey", n!"two_key"),
+  (n!"consts.IPPROTO_TCP", n!"IPPROTO_TCP"),
+  (n!"consts.IPPROTO_UDP", n!"IPPROTO_UDP"),
+  (n!"consts.LinkHdrLen_Ethernet", n!"ETH_HLEN"),
+  (n!"consts.L4ProtoType_TCP_UDP", n!"L4ProtoType_X"),
+  (n!"control.defaultConnStateMapMaxEntries", n!"MAX_CONN_STATE_NUM")]
 
-def constPairOk (x : String × String) : Bool :=
+def constPairOk (x : Name × Name) : Bool :=
   match lookupConst x.1 Gen.goConsts, lookupConst x.2 Gen.cConsts with
   | some a, some b => a == b
   | _, _ => false
 
-def constPairProblem (x : String × String) : List String :=
+def constPairProblem (x : Name × Name) : List String :=
   match lookupConst x.1 Gen.goConsts, lookupConst x.2 Gen.cConsts with
-  | some a, some b => if a == b then [] else [s!"{x.1}={a} but {x.2}={b}"]
-  | none, _ => [s!"Go constant {x.1} not found"]
-  | _, none => [s!"C constant {x.2} not found"]
+  | some a, some b => if a == b then [] else [s!"{nameStr x.1}={a} but {nameStr x.2}={b}"]
+  | none, _ => [s!"Go constant {nameStr x.1} not found"]
+  | _, none => [s!"C constant {nameStr x.2} not found"]
 
-def goConstNat (n : String) : Nat := ((lookupConst n Gen.goConsts).getD (-1)).toNat
-def cConstNat (n : String) : Nat := ((lookupConst n Gen.cConsts).getD (-1)).toNat
+def goConstNat (n : Name) : Nat := ((lookupConst n Gen.goConsts).getD (-1)).toNat
+def cConstNat (n : Name) : Nat := ((lookupConst n Gen.cConsts).getD (-1)).toNat
 
-def leafCount (recs : List Rec) (r l : String) : Nat :=
+def leafCount (recs : List Rec) (r l : Name) : Nat :=
   match findRec r recs with
   | some rc => match findLeaf l rc.leaves with | some lf => lf.count | none => 0
   | none => 0
 
-def mapMaxEntries (n : String) : Nat := match findMap n Gen.cMaps with | some m => m.maxEntries | none => 0
+def mapMaxEntries (n : Name) : Nat := match findMap n Gen.cMaps with | some m => m.maxEntries | none => 0
 
 /-- Limits that tie constants to array lengths and map sizes (name, holds). -/
 def limitChecks : List (String × Bool) := [
   ("domain bitmap words * 32 = MaxMatchSetLen (Go) = MAX_MATCH_SET_LEN (C)",
-    leafCount Gen.cRecs "domain_routing" "bitmap" * 32 == goConstNat "consts.MaxMatchSetLen"
-    && leafCount (goRecsFor "amd64") "stub.bpfDomainRouting" "Bitmap" * 32 == cConstNat "MAX_MATCH_SET_LEN"),
-  ("routing_map holds MaxMatchSetLen entries", mapMaxEntries "routing_map" == goConstNat "consts.MaxMatchSetLen"),
+    leafCount Gen.cRecs n!"domain_routing" n!"bitmap" * 32 == goConstNat n!"consts.MaxMatchSetLen"
+    && leafCount (goRecsFor n!"amd64") n!"stub.bpfDomainRouting" n!"Bitmap" * 32 == cConstNat n!"MAX_MATCH_SET_LEN"),
+  ("routing_map holds MaxMatchSetLen entries", mapMaxEntries n!"routing_map" == goConstNat n!"consts.MaxMatchSetLen"),
   ("lpm_array_map holds at least MaxMatchSetLen tries (Go allocates index % MaxMatchSetLen)",
-    goConstNat "consts.MaxMatchSetLen" ≤ mapMaxEntries "lpm_array_map" && 0 < goConstNat "consts.MaxMatchSetLen"),
+    goConstNat n!"consts.MaxMatchSetLen" ≤ mapMaxEntries n!"lpm_array_map" && 0 < goConstNat n!"consts.MaxMatchSetLen"),
   ("outbound_connectivity_map holds 256 * slotsPerOutbound slots",
-    mapMaxEntries "outbound_connectivity_map" == 256 * goConstNat "control.outboundConnectivitySlotsPerOutbound"),
+    mapMaxEntries n!"outbound_connectivity_map" == 256 * goConstNat n!"control.outboundConnectivitySlotsPerOutbound"),
   ("slotsPerOutbound = 3 * slotsPerDomain",
-    goConstNat "control.outboundConnectivitySlotsPerOutbound" == 3 * goConstNat "control.outboundConnectivitySlotsPerDomain"),
+    goConstNat n!"control.outboundConnectivitySlotsPerOutbound" == 3 * goConstNat n!"control.outboundConnectivitySlotsPerDomain"),
   ("TaskCommLen = length of every pname member",
-    leafCount Gen.cRecs "routing_result" "pname" == goConstNat "consts.TaskCommLen"
-    && leafCount Gen.cRecs "conn_state" "pname" == goConstNat "consts.TaskCommLen"
-    && leafCount Gen.cRecs "pid_pname" "pname" == goConstNat "consts.TaskCommLen"
-    && leafCount Gen.cRecs "match_set" "pname" * 4 == goConstNat "consts.TaskCommLen"),
-  ("conn_state_map default size", mapMaxEntries "conn_state_map" == goConstNat "control.defaultConnStateMapMaxEntries"),
-  ("fast_sock placeholder size", mapMaxEntries "fast_sock" == goConstNat "control.fastSockPlaceholderMaxEntries"),
+    leafCount Gen.cRecs n!"routing_result" n!"pname" == goConstNat n!"consts.TaskCommLen"
+    && leafCount Gen.cRecs n!"conn_state" n!"pname" == goConstNat n!"consts.TaskCommLen"
+    && leafCount Gen.cRecs n!"pid_pname" n!"pname" == goConstNat n!"consts.TaskCommLen"
+    && leafCount Gen.cRecs n!"match_set" n!"pname" * 4 == goConstNat n!"consts.TaskCommLen"),
+  ("conn_state_map default size", mapMaxEntries n!"conn_state_map" == goConstNat n!"control.defaultConnStateMapMaxEntries"),
+  ("fast_sock placeholder size", mapMaxEntries n!"fast_sock" == goConstNat n!"control.fastSockPlaceholderMaxEntries"),
   ("listen_socket_map holds the three listener keys",
-    goConstNat "consts.ZeroKey" < mapMaxEntries "listen_socket_map"
-    && goConstNat "consts.OneKey" < mapMaxEntries "listen_socket_map"
-    && goConstNat "consts.TwoKey" < mapMaxEntries "listen_socket_map"),
+    goConstNat n!"consts.ZeroKey" < mapMaxEntries n!"listen_socket_map"
+    && goConstNat n!"consts.OneKey" < mapMaxEntries n!"listen_socket_map"
+    && goConstNat n!"consts.TwoKey" < mapMaxEntries n!"listen_socket_map"),
   ("user-defined outbound ids fit below the reserved ones",
-    goConstNat "consts.OutboundUserDefinedMax" + 1 == cConstNat "OUTBOUND_MUST_RULES"
-    && goConstNat "consts.OutboundUserDefinedMin" == cConstNat "OUTBOUND_BLOCK" + 1)
+    goConstNat n!"consts.OutboundUserDefinedMax" + 1 == cConstNat n!"OUTBOUND_MUST_RULES"
+    && goConstNat n!"consts.OutboundUserDefinedMin" == cConstNat n!"OUTBOUND_BLOCK" + 1)
 ]
 
 /-! ## 3. Bytes and byte order -/
@@ -526,14 +536,14 @@ def NetworkType.effDomain (t : NetworkType) : UdpDomain :=
 
 /-- `outboundConnectivityDomainIndex` with the Go constants read from the regenerated table. -/
 def goDomainIdx (t : NetworkType) : Nat :=
-  if t.l4 ≠ .udp then goConstNat "control.outboundConnectivityDomainTCP"
-  else if t.effDomain = .dns then goConstNat "control.outboundConnectivityDomainDnsUDP"
-  else goConstNat "control.outboundConnectivityDomainDataUDP"
+  if t.l4 ≠ .udp then goConstNat n!"control.outboundConnectivityDomainTCP"
+  else if t.effDomain = .dns then goConstNat n!"control.outboundConnectivityDomainDnsUDP"
+  else goConstNat n!"control.outboundConnectivityDomainDataUDP"
 
 /-- `outboundConnectivityMapKey` (uint32 arithmetic) -/
 def goConnKey (outbound : Nat) (t : NetworkType) : Nat :=
-  (outbound * goConstNat "control.outboundConnectivitySlotsPerOutbound"
-    + goDomainIdx t * goConstNat "control.outboundConnectivitySlotsPerDomain"
+  (outbound * goConstNat n!"control.outboundConnectivitySlotsPerOutbound"
+    + goDomainIdx t * goConstNat n!"control.outboundConnectivitySlotsPerDomain"
     + (if t.ip = .v6 then 1 else 0)) % 2 ^ 32
 
 /-- `wan_outbound_is_alive`: the slot the kernel reads, `none` when it does not consult the map
@@ -559,13 +569,13 @@ deriving DecidableEq, Repr
 /-- `assign_listener`: which `listen_socket_map` key the kernel uses (values of the C statics from the
 regenerated table). -/
 def cListenKey (l4proto : Nat) (ethIsV6 : Bool) : Nat :=
-  if l4proto = 6 then (if ethIsV6 then cConstNat "two_key" else cConstNat "zero_key") else cConstNat "one_key"
+  if l4proto = 6 then (if ethIsV6 then cConstNat n!"two_key" else cConstNat n!"zero_key") else cConstNat n!"one_key"
 
 /-- which key the control plane stores each listener under (`control_plane.go`, `ListenSocketMap.Update`) -/
 def goListenKey : Listener → Nat
-  | .tcp4 => goConstNat "consts.ZeroKey"
-  | .tcp6 => goConstNat "consts.TwoKey"
-  | .udp => goConstNat "consts.OneKey"
+  | .tcp4 => goConstNat n!"consts.ZeroKey"
+  | .tcp6 => goConstNat n!"consts.TwoKey"
+  | .udp => goConstNat n!"consts.OneKey"
 
 def listenerOfPacket (l4proto : Nat) (ethIsV6 : Bool) : Listener :=
   if l4proto = 6 then (if ethIsV6 then .tcp6 else .tcp4) else .udp
